@@ -266,7 +266,7 @@ func C13(p *core.Program, r *core.Report) {
 	r.Floor("L2", 10)
 
 	// ---- L3 / L4
-	ap := mustFunc(p, r, "L3", core.ModPath+".Apply")
+	ap := mustInl(p, r, "L3", core.ModPath+".Apply")
 	if ap == nil {
 		return
 	}
